@@ -39,6 +39,8 @@ type Exec struct {
 	maxInline int
 	inlined   int
 	elemLoads map[string][]elemLoad // per element heap: the slice accesses made by the code so far
+	methCache map[string]string     // dispatch term of a niladic interface method -> the constant naming it
+	methEval  map[string]Term       // (receiver, method, heap versions) -> dispatch value already computed
 }
 
 type elemLoad struct{ slice, idx, es string }
